@@ -15,7 +15,7 @@ STORES = [[0, 1, 2, True], [3, 0, False, 5], [1, 1, 1, 1]]
 PY_FUEL = 60
 CFG_FUEL = 4000
 HEADER = ("From Coq Require Import ZArith List Bool.\n"
-          "From V.C03 Require Import PyAst PySem Cfg CfgSem Builder Encode.\n"
+          "From V.C03 Require Import PyAst PySem Cfg CfgSem Builder Encode Frag.\n"
           "Import ListNotations.\n")
 
 
@@ -41,7 +41,7 @@ def run_impl(ctx, progs):
 
 
 def model_file(progs):
-    items = [f"enc_build (build {pyast.stmts_coq(p['body'])} {'true' if p['returns_none'] else 'false'})" for p in progs]
+    items = [f"(let p := {pyast.stmts_coq(p['body'])} in [Z.b2z (safe_stmts p); Z.b2z (frag_stmts p)] :: enc_build (build p {'true' if p['returns_none'] else 'false'}))" for p in progs]
     return HEADER + "Definition cases : list (list (list Z)) := [\n" + ";\n".join(items) + "].\nEval vm_compute in cases.\n"
 
 
@@ -52,7 +52,7 @@ def run_model(ctx, progs, tag, per=250):
     for i in range(len(chunks)):
         res += vlib.parse_coq_values(outs[f"{tag}{i}"])[0]
     assert len(res) == len(progs), (len(res), len(progs))
-    return res
+    return [(r[0], r[1:]) for r in res]
 
 
 def compare_cfg(p, impl, model):
@@ -78,29 +78,75 @@ def compare_cfg(p, impl, model):
     return None
 
 
-def sem_file(progs, impls):
+def sem_file(progs, impls, stores=None):
     """PySem on the source vs CfgSem on the implementation's CFG, for each store."""
     items = []
     for p, im in zip(progs, impls):
         body = pyast.stmts_coq(p["body"])
-        for st in STORES:
+        for st in (stores or STORES):
             s = "(store_of [" + "; ".join(pyast.val_coq(v) for v in st) + "], [])"
             items.append(f"[enc_run {pygen.NV} (exec_py test_oracle {PY_FUEL} {body} {s}); "
                          f"enc_run {pygen.NV} (run_cfg test_oracle {im['coq']} {CFG_FUEL} {s})]")
     return HEADER + "Definition cases : list (list (list Z)) := [\n" + ";\n".join(items) + "].\nEval vm_compute in cases.\n"
 
 
-def run_sem(ctx, progs, impls, tag, per=60):
+def run_sem(ctx, progs, impls, tag, per=60, stores=None):
+    """-> {index: [(py_tokens, cfg_tokens) per store]} for the programs the implementation built"""
+    stores = stores or STORES
     idx = [i for i, im in enumerate(impls) if im["ok"]]
     chunks = [idx[i:i + per] for i in range(0, len(idx), per)]
-    outs = ctx.coq_eval_many({f"{tag}{k}": sem_file([progs[i] for i in c], [impls[i] for i in c]) for k, c in enumerate(chunks)})
+    outs = ctx.coq_eval_many({f"{tag}{k}": sem_file([progs[i] for i in c], [impls[i] for i in c], stores) for k, c in enumerate(chunks)})
     res = {}
     for k, c in enumerate(chunks):
         vals = vlib.parse_coq_values(outs[f"{tag}{k}"])[0]
-        assert len(vals) == len(c) * len(STORES)
+        assert len(vals) == len(c) * len(stores)
         for j, i in enumerate(c):
-            res[i] = vals[j * len(STORES):(j + 1) * len(STORES)]
+            res[i] = vals[j * len(stores):(j + 1) * len(stores)]
     return res
+
+
+def first_sem_diff(rs, stores=None):
+    """first store on which Python terminates normally and the CFG run differs"""
+    for st, (py, cf) in zip(stores or STORES, rs):
+        if py[0] == 0 and py != cf:
+            return {"arguments_v0_v3": st, "python": decode_run(py), "cfg": decode_run(cf)}
+    return None
+
+
+def decode_run(tok):
+    if tok[0] == 1:
+        return "raises / stuck"
+    if tok[0] == 2:
+        return "out of fuel"
+    pos = [1]
+
+    def val():
+        t = tok[pos[0]]
+        pos[0] += 1
+        if t == 0:
+            pos[0] += 1
+            return tok[pos[0] - 1]
+        if t == 1:
+            pos[0] += 1
+            return bool(tok[pos[0] - 1])
+        if t == 2:
+            return None
+        if t == 9:
+            return "<unbound>"
+        n = tok[pos[0]]
+        pos[0] += 1
+        return tuple(val() for _ in range(n))
+    out = {"returns": val(), "vars": {f"v{i}": val() for i in range(pygen.NV)}}
+    n = tok[pos[0]]
+    pos[0] += 1
+    calls = []
+    for _ in range(n):
+        f, k = tok[pos[0]], tok[pos[0] + 1]
+        pos[0] += 2
+        args = [val() for _ in range(k)]
+        calls.append(f"f{f}({', '.join(map(repr, args))}) -> {val()!r}")
+    out["calls"] = calls
+    return out
 
 
 def describe_run(tok):
